@@ -1134,6 +1134,7 @@ std::size_t Preprocessor::calculateHash(const std::string &toolinfo) const
         }
     }
     for (const auto &filedata : mFileCache) {
+        hashData += filedata->filename;
         for (const simplecpp::Token *tok = filedata->tokens.cfront(); tok; tok = tok->next) {
             if (!tok->comment) {
                 hashData += tok->str();
